@@ -10,6 +10,11 @@
     parent <path> | ancestor <path> <tag> | by <path>                         → ok p:Cls / <error>
     clear                                                                     → ok (drops the resolver's instance cache)
     classof <path>                                                            → cache-free class (never touches the instance cache)
+    expand <path>                                                             → ok p:Cls,p:Cls / <error>   (Nodes.expand)
+    expandp <path>                                                            → ok p,p / <error>           (paths before resolution)
+    values <path>                                                             → ok hex,hex / <error>       (Nodes.values)
+    groupby <path> <depth>                                                    → ok p,p / <error>           (EntryCache.group_by keys)
+    expandsafe <path>                                                         → ok <PrefixSafe> <RelativefySafe> <expandOf 3 = expandFullOf>
 -/
 import Tranp.Driver.Common
 import Tranp.Model.AstPath
@@ -140,6 +145,33 @@ def step (st : St) : List String → St × String
     match ancestorPath st.w (s2l p) (s2l tag) with
     | .ok q => (st, "ok " ++ l2s q)
     | .error er => (st, err er)
+  | ["expand", p] =>
+    match (expandPaths st.w (s2l p)).bind (resolveAll st.w st.insts) with
+    | .ok (out, insts) => ({ st with insts := insts }, "ok " ++ ",".intercalate out)
+    | .error er => (st, err er)
+  | ["expandp", p] =>
+    match expandPaths st.w (s2l p) with
+    | .ok ps => (st, "ok " ++ ",".intercalate (ps.map l2s))
+    | .error er => (st, err er)
+  | ["values", p] =>
+    match valuesOf st.w (s2l p) with
+    | .ok vs => (st, "ok " ++ ",".intercalate (vs.map Str.hex))
+    | .error er => (st, err er)
+  | ["groupby", p, d] =>
+    match d.toInt? with
+    | none => (st, "bad-op")
+    | some depth =>
+      match st.w.cache.groupByAll (s2l p) depth with
+      | .ok g => (st, "ok " ++ ",".intercalate (g.map fun kv => l2s kv.1))
+      | .error er => (st, err er)
+  | ["expandsafe", p] =>
+    match (pathfy st.w.root [⟨st.w.root.name, none⟩]).find? (fun pe => encodePath pe.1 == s2l p) with
+    | some (q, x) =>
+      let a := decide (PrefixSafe st.w q x)
+      let b := decide (RelativefySafe q x)
+      let c := decide (expandOf st.w.table.canResolve 3 x q = expandFullOf st.w.table.canResolve x q)
+      (st, s!"ok {a} {b} {c}")
+    | none => (st, "Errors.NodeNotFound")
   | ["clear"] => ({ st with insts := [] }, "ok")
   | _ => (st, "bad-op")
 
